@@ -10,6 +10,10 @@ func propC18(c *Ctx, r *Report) {
 	r.NotDecided = append(r.NotDecided,
 		"size/offset arithmetic of the container, abbreviation widths, operand indices, signature/PSV consistency, hash correctness")
 	c.runBalance(r, "pairing.bitcode", bitcodeBracket)
+	r.Clauses = append(r.Clauses, "sibling semantic tables (E74): the tables that name the system-value semantic of a built-in (signature parts, PSV0 elements, metadata) give a built-in the same SV_ name, and a built-in named by two of them has an arm in the others")
+	c.runSemanticSiblings(r, "semantic.siblings", inPkgs("dxil"), nil)
+	r.floor("semantic.siblings", 15)
+	r.floor("semantic.tables", 3)
 	r.floor("pairing.EnterBlock/ExitBlock", 8)
 	r.Clauses = append(r.Clauses, "sibling renumbering (E3): the functions of the DXIL emitter that rewrite emitter-local value ids to final ids in module.Instruction records (entry-point and helper-function finalisers, discovered as functions writing >= 3 common fields of Instruction / PhiIncoming) write the same set of fields - a field only one of them renumbers keeps stale ids on the other path, i.e. operands that refer to the wrong value")
 	c.runSiblingWriters(r, "siblings.fields", "dxil/internal/emit", []string{"Instruction", "PhiIncoming"}, 3, nil)
